@@ -91,7 +91,8 @@ def d_package(ann, extra_decls=()):
     ls += ["type hidden struct{ X int }", "", "// Hidden hands out a hidden.", "func Hidden() *hidden { return new(hidden) }", ""]
     if ann.get("ctors"):
         ls += ["// rec has a constructor.", "// @constructor newRec"]
-    ls += ["type rec struct{ X int }", "", "// Rec is an exported name of rec.", "type Rec = rec", "", "// U is never annotated.", "type U struct {", "\tX  int", "\tXs []int", "\tM  int", "}", ""]
+    ls += ["type rec struct{ X int }", "", "// Rec is an exported name of rec.", "type Rec = rec", "", "// U is never annotated.", "type U struct {", "\tX  int", "\tXs []int", "\tM  int", "}", "",
+           "// Counter is a plain package-level variable.", "var Counter int", ""]
     ls += list(extra_decls)
     return "\n".join(ls) + "\n"
 
@@ -132,6 +133,7 @@ IMM_STMT = {
     "readX": "_ = %(x)s.X + %(n)d",
     "onU": "u%(n)d.X = %(n)d",
     "onTG": "g%(n)d.X = %(n)d",
+    "onPkgVar": "%(q)sCounter = %(n)d",
     "onT2": "q%(n)d.X = %(n)d",
     "onHidden": "%(q)sHidden().X = %(n)d",
     "local": "l%(n)d = %(n)d",
@@ -168,7 +170,7 @@ def imm_container(c, n, pkg, qual, handles):
         params = "q%d *%sT2" % (n, qual)
     if c["stmt"] == "onTG":
         params = "g%d *%sTG" % (n, qual)
-    if c["stmt"] == "onHidden":
+    if c["stmt"] in ("onHidden", "onPkgVar"):
         params = ""
     if c["stmt"] in ("recvInc", "recvDec", "recvAssign") or c["via"] == "r":
         params = ""
@@ -187,7 +189,7 @@ def imm_container(c, n, pkg, qual, handles):
             handles.append("var g%d *%sTG" % (n, qual))
         elif c["stmt"] in ("starPlain", "starPlainInc"):
             pre = ["var r *int"] + pre
-        elif c["stmt"] == "onHidden":
+        elif c["stmt"] in ("onHidden", "onPkgVar"):
             pass
         elif c["stmt"] != "local":
             handles.append("var p%d %s" % (n, te))
